@@ -188,7 +188,20 @@ fn check_sequence(len: usize, word: u32, sigma: f64, acc: &mut Acc) {
     acc.nontrivial += 1;
     let key = format!("seq:len{}:{:b}:{:?}", len, word, sigma);
     let replay = json!({"kind": "seq", "len": len, "word": word, "sigma": sigma});
-    let bits: Vec<u8> = (0..len).map(|i| ((word >> i) & 1) as u8).collect();
+    // up to 32 bits the word is the sequence; longer sequences are a fixed pseudo-random expansion of it
+    let bits: Vec<u8> = if len <= 32 {
+        (0..len).map(|i| ((word >> i) & 1) as u8).collect()
+    } else {
+        let mut x = 0x9E37_79B9_7F4A_7C15u64 ^ u64::from(word);
+        (0..len)
+            .map(|_| {
+                x ^= x << 13;
+                x ^= x >> 7;
+                x ^= x << 17;
+                (x >> 33 & 1) as u8
+            })
+            .collect()
+    };
     let arr = Array1::from_iter(bits.iter().map(|&b| gf2(b)));
     // the same bit sequence presented as a reversed view (stride -1) and as a stride-2 view must
     // modulate to the same symbols as the owned standard-layout array
@@ -246,6 +259,15 @@ fn check_sequence(len: usize, word: u32, sigma: f64, acc: &mut Acc) {
                 acc.violate(key.clone(), "BPSK noiseless LLR is zero or not finite".into(), replay.clone());
                 return;
             }
+            // soft values at every position of the sequence (not only of a one-symbol call)
+            for (i, x) in b.iter().enumerate() {
+                let want = bpsk_ref_llr(if bits[i] == 1 { 1.0 } else { -1.0 }, sigma);
+                let t = 4.0 * f64::EPSILON * want.abs() + 1e-300;
+                if !(x - want).abs().le(&t) {
+                    acc.violate(key.clone(), format!("BPSK LLR at position {} of {} is {:e}, posterior log-ratio {:e}", i, len, x, want), replay.clone());
+                    return;
+                }
+            }
             if let Some(p) = p {
                 if p.len() != len || hd(&p) != bits {
                     acc.violate(key.clone(), format!("8PSK hard decisions {:?} for bits {:?}", hd(&p), bits), replay.clone());
@@ -258,6 +280,14 @@ fn check_sequence(len: usize, word: u32, sigma: f64, acc: &mut Acc) {
                     if (s - want).norm() > 1e-15 {
                         acc.violate(key, format!("symbol {} is {:?}, table says {:?}", k, s, want), replay);
                         return;
+                    }
+                    let wl = psk8_ref_llr(want, sigma);
+                    for b3 in 0..3 {
+                        let t = tol(wl[b3], 1.0, sigma);
+                        if !(p[3 * k + b3] - wl[b3]).abs().le(&t) {
+                            acc.violate(key, format!("8PSK LLR at position {} of {} is {:e}, posterior log-ratio {:e}", 3 * k + b3, len, p[3 * k + b3], wl[b3]), replay);
+                            return;
+                        }
                     }
                 }
             }
@@ -321,13 +351,21 @@ pub fn run(run: &Run) -> i32 {
                 }
             }
         }
+        // long sequences (lengths around 64, 4096, 65536 symbols / bits): fixed pseudo-random bit patterns
+        for len in if run.thorough() { vec![63usize, 66, 192, 195, 4095, 4098, 12288, 12291, 65538, 196611] } else { vec![66usize, 195, 4097, 4098, 12291] } {
+            for w in [1u32, 2] {
+                for s in [0.05, 1.0] {
+                    items.push(json!({"kind": "seq", "len": len, "word": w, "sigma": s}));
+                }
+            }
+        }
         acc = par_items(&items, |it, a| replay_element(it, a));
     }
     finish(
         run,
         acc,
         Coverage {
-            rule: "sigma in {1e-3,0.05,0.3,0.7071,1,2.5,40,1e3} x 8PSK samples on a square grid over [-3,3]^2 plus constellation points, decision-boundary midpoints, boundary rays at radius 0.5 and 2, origin, a far point; BPSK samples on a 15-value list; every bit sequence up to the length bound (both modulations, three sigmas; each also as a reversed and as a stride-2 array view); the constellation table itself. Non-trivial = the reference log-ratio exceeds 100x the comparison tolerance in at least one bit (so the comparison is informative).".into(),
+            rule: "sigma in {1e-3,0.05,0.3,0.7071,1,2.5,40,1e3} x 8PSK samples on a square grid over [-3,3]^2 plus constellation points, decision-boundary midpoints, boundary rays at radius 0.5 and 2, origin, a far point; BPSK samples on a 15-value list; every bit sequence up to the length bound (both modulations, three sigmas; each also as a reversed and as a stride-2 array view), plus fixed pseudo-random sequences of 66..12291 (thorough: 196611) bits; the constellation table itself. Non-trivial = the reference log-ratio exceeds 100x the comparison tolerance in at least one bit (so the comparison is informative).".into(),
             exhaustive: true,
             extra: serde_json::Map::new(),
             graph: None,
